@@ -1,5 +1,6 @@
 import Driver.C23
 import SuccinctlyVerif.Model.JsonLocate
+import SuccinctlyVerif.Model.JsonLocateBp
 import SuccinctlyVerif.Model.JsonValidate
 import SuccinctlyVerif.Generated.C08
 /-!
@@ -57,12 +58,34 @@ def answerDoc (text : List (BitVec 8)) : String :=
       let table := entries text (2 * text.length + 2) root []
       let _ := doc
       let _ := env
+      -- function-by-function layer over the semi-index, cached per BP position
+      let idx := Idx.build text
+      let bpOf := (List.range text.length).map fun off => idx.findNodeAtOffset off
+      let distinct := bpOf.eraseDups
+      let perBp : List (Option Nat × Option (List Char × Nat × Nat × BitVec 8)) := distinct.map fun b =>
+        (b, match b with
+          | none => none
+          | some bpPos =>
+            match idx.pathToBp bpPos, idx.textPosition bpPos with
+            | some expr, some start =>
+              (match tokenEnd text start, text[start]? with
+               | some stop, some c => some (expr, start, stop, c)
+               | none, some c => some (expr, start, text.length, c)
+               | _, none => none)
+            | _, _ => none)
       let answers := (List.range text.length).map fun off =>
+        let l2 : Option (List Char × Nat × Nat × BitVec 8) :=
+          match perBp.find? (fun p => p.1 == bpOf.getD off none) with
+          | some (_, r) => r
+          | none => none
         match findEntry table text.length off with
-        | none => s!"{off}:-"
+        | none => if l2.isSome then s!"{off}:MODEL-SPEC" else s!"{off}:-"
         | some e =>
-          let expr := String.ofList (renderPath e.comps)
+          let exprL := renderPath e.comps
+          let expr := String.ofList exprL
+          let agree := l2 == some (exprL, e.node.start, e.node.stop, e.node.first)
           let v := if qualifies e off then "KK" else "--"
+          if !agree then s!"{off}:MODEL-SPEC" else
           s!"{off}:{stringHex expr}|{e.node.start},{e.node.stop}|{typeName e.node.first}|{v}"
       if answers.isEmpty then "-" else " ".intercalate answers
   | _, _, _ => "MODEL-CANNOT-READ"
